@@ -587,3 +587,154 @@ Proof.
     rewrite K2 in H4. destruct (settle g (length (g_blocks g)) (t, O)); [discriminate | discriminate H4].
   - intros e E. rewrite E in H5. exact H5.
 Qed.
+
+(* ------------------------------------------------------------------ language equality is enough (det graphs) *)
+Lemma nodup_labs_fun l c t t' : nodup_labs l = true -> In (c, t) l -> In (c, t') l -> t = t'.
+Proof.
+  intros N. apply nodup_labs_NoDup in N. induction l as [|[c0 t0] r IH]; intros I I'; [destruct I|].
+  cbn [map fst] in N. inversion N as [|? ? N1 N2]; subst. destruct I as [E|I], I' as [E'|I'].
+  - congruence.
+  - injection E as -> ->. exfalso. apply N1. apply in_map_iff. exists (c, t'). split; [reflexivity | exact I'].
+  - injection E' as -> ->. exfalso. apply N1. apply in_map_iff. exists (c, t). split; [reflexivity | exact I].
+  - apply IH; assumption.
+Qed.
+
+Lemma kind_ins_item g q x r : kind_of g q = KIns x r -> exists a o, x = Ins a o.
+Proof.
+  unfold kind_of. destruct (find_block (g_blocks g) (fst q)) as [b|]; [|discriminate].
+  destruct (nth_error (b_instrs b) (snd q)) as [i|]; [intros [= <- _]; eexists; eexists; reflexivity|].
+  destruct (out_edges g (fst q)) as [|e [|e' es]]; [discriminate | destruct (e_cond e); discriminate | discriminate].
+Qed.
+
+Section LangEq.
+  Variable St : Type.
+  Variable do_ins : St -> item -> option St.
+  Variable holds : St -> option expr -> option bool.
+  Variables (g1 g2 : cfg) (n1 n2 : nat).
+  Hypothesis D1 : det g1 = true.
+  Hypothesis D2 : det g2 = true.
+  Hypothesis S1 : forall p, settle g1 n1 p <> None.
+  Hypothesis S2 : forall p, settle g2 n2 p <> None.
+
+  Definition leq (p1 p2 : pos) : Prop := forall w, lang_from g1 p1 w <-> lang_from g2 p2 w.
+
+  Lemma leq_settle p1 p2 q1 q2 : leq p1 p2 -> settle g1 n1 p1 = Some q1 -> settle g2 n2 p2 = Some q2 -> leq q1 q2.
+  Proof.
+    intros L E1 E2 w. unfold lang_from. split; intros [r R].
+    - assert (X : lang_from g1 p1 w) by (exists r; eapply settle_run; eassumption).
+      apply L in X as [r' R']. eapply settle_run_inv; eassumption.
+    - assert (X : lang_from g2 p2 w) by (exists r; eapply settle_run; eassumption).
+      apply L in X as [r' R']. eapply settle_run_inv; eassumption.
+  Qed.
+
+  Lemma one_step g q x p' : vstep g q x p' -> lang_from g q [x].
+  Proof. intros V. exists p'. eapply run_vis; [exact V | constructor]. Qed.
+
+  Theorem lang_eq_pexec : forall n p1 p2 s, leq p1 p2 ->
+    pexec St do_ins holds g1 n1 n p1 s = pexec St do_ins holds g2 n2 n p2 s.
+  Proof.
+    induction n as [|n IH]; intros p1 p2 s L; [reflexivity|]. cbn [pexec].
+    destruct (settle g1 n1 p1) as [q1|] eqn:E1; [|exfalso; exact (S1 _ E1)].
+    destruct (settle g2 n2 p2) as [q2|] eqn:E2; [|exfalso; exact (S2 _ E2)].
+    pose proof (leq_settle _ _ _ _ L E1 E2) as Lq.
+    assert (NS2 : forall t, kind_of g2 q2 <> KSilent t) by (intros t; eapply settle_not_silent; exact E2).
+    destruct (kind_of g1 q1) as [x r1|t1|l1] eqn:K1; [| exfalso; eapply settle_not_silent; [exact E1 | exact K1] |].
+    - (* an instruction on the left: the same instruction on the right, equal residual languages *)
+      assert (NS1 : forall t, kind_of g1 q1 <> KSilent t) by (intros t; rewrite K1; discriminate).
+      assert (X : lang_from g2 q2 [x]) by (apply Lq; eapply one_step; apply vs_ins; exact K1).
+      destruct X as [r0 R0]. apply run_cons_inv in R0; [|exact NS2]. destruct R0 as (p' & V & _).
+      assert (K2 : exists r2, kind_of g2 q2 = KIns x r2).
+      { inversion V as [x0 q0 K|l c t K I]; subst; [exists p'; exact K|].
+        exfalso. destruct (kind_ins_item _ _ _ _ K1) as (a & o & Q). discriminate Q. }
+      destruct K2 as [r2 K2]. rewrite K2.
+      assert (Lr : leq r1 r2).
+      { intros w. split; intros [r R].
+        - assert (Y : lang_from g2 q2 (x :: w)) by (apply Lq; exists r; eapply run_vis; [apply vs_ins; exact K1 | exact R]).
+          destruct Y as [r' R']. apply run_cons_inv in R'; [|exact NS2]. destruct R' as (p'' & V'' & R'').
+          inversion V'' as [x0 q0 K|l c t K I]; subst; rewrite K2 in K; [injection K as <-; exists r'; exact R'' | discriminate].
+        - assert (Y : lang_from g1 q1 (x :: w)) by (apply Lq; exists r; eapply run_vis; [apply vs_ins; exact K2 | exact R]).
+          destruct Y as [r' R']. apply run_cons_inv in R'; [|exact NS1]. destruct R' as (p'' & V'' & R'').
+          inversion V'' as [x0 q0 K|l c t K I]; subst; rewrite K1 in K; [injection K as <-; exists r'; exact R'' | discriminate]. }
+      destruct (do_ins s x) as [s'|]; [|reflexivity]. rewrite (IH _ _ s' Lr). reflexivity.
+    - (* a branching point on the left *)
+      assert (NS1 : forall t, kind_of g1 q1 <> KSilent t) by (intros t; rewrite K1; discriminate).
+      assert (A : forall c t, In (c, t) l1 -> exists l2 t', kind_of g2 q2 = KBranch l2 /\ In (c, t') l2).
+      { intros c t I. assert (X : lang_from g2 q2 [Grd c]) by (apply Lq; eapply one_step; eapply vs_grd; eassumption).
+        destruct X as [r0 R0]. apply run_cons_inv in R0; [|exact NS2]. destruct R0 as (p' & V & _).
+        inversion V as [x0 q0 K|l c0 t' K I']; subst.
+        - exfalso. destruct (kind_ins_item _ _ _ _ K) as (a & o & Q). discriminate Q.
+        - exists l, t'. split; assumption. }
+      destruct (kind_of g2 q2) as [x2 r2|t2|l2] eqn:K2; [| exfalso; eapply settle_not_silent; [exact E2 | exact K2] |].
+      + (* right is an instruction: then the left must be one too *)
+        exfalso. assert (X : lang_from g1 q1 [x2]) by (apply Lq; eapply one_step; apply vs_ins; exact K2).
+        destruct X as [r0 R0]. apply run_cons_inv in R0; [|exact NS1]. destruct R0 as (p' & V & _).
+        inversion V as [x0 q0 K|l c t K I]; subst; rewrite K1 in K; [discriminate|]. injection K as <-.
+        destruct (A _ _ I) as (l2 & t' & Kx & _). discriminate Kx.
+      + clear NS2. assert (NS2 : forall t, kind_of g2 q2 <> KSilent t) by (intros t; rewrite K2; discriminate).
+        assert (A' : forall c t, In (c, t) l1 -> exists t', In (c, t') l2).
+        { intros c t I. destruct (A _ _ I) as (l2' & t' & Kx & I'). injection Kx as <-. exists t'. exact I'. }
+        assert (B' : forall c t, In (c, t) l2 -> exists t', In (c, t') l1).
+        { intros c t I. assert (X : lang_from g1 q1 [Grd c]) by (apply Lq; eapply one_step; eapply vs_grd; eassumption).
+          destruct X as [r0 R0]. apply run_cons_inv in R0; [|exact NS1]. destruct R0 as (p' & V & _).
+          inversion V as [x0 q0 K|l c0 t' K I']; subst; rewrite K1 in K; [discriminate|]. injection K as <-. exists t'. exact I'. }
+        pose proof (det_kind _ _ _ D1 K1) as N1. pose proof (det_kind _ _ _ D2 K2) as N2.
+        pose proof (enabled_length St holds s l1 l2 N1 N2 A' B') as Len.
+        pose proof (faulty_eq St holds s l1 l2 A' B') as FE.
+        destruct l1 as [|a1 l1'], l2 as [|a2 l2'].
+        * reflexivity.
+        * exfalso. destruct a2 as [c t]. destruct (B' c t (or_introl eq_refl)) as [t' []].
+        * exfalso. destruct a1 as [c t]. destruct (A' c t (or_introl eq_refl)) as [t' []].
+        * rewrite FE. destruct (faulty St holds s (a2 :: l2')); [reflexivity|].
+          destruct (enabled St holds s (a1 :: l1')) as [|[c1 t1] [|? ?]] eqn:En1;
+            destruct (enabled St holds s (a2 :: l2')) as [|[c2 t2] [|? ?]] eqn:En2; cbn in Len; try lia; try reflexivity.
+          assert (I1 : In (c1, t1) (enabled St holds s (a1 :: l1'))) by (rewrite En1; left; reflexivity).
+          unfold enabled in I1. apply filter_In in I1 as [I1 H1]. cbn [fst] in H1.
+          destruct (A' _ _ I1) as [t2' I2].
+          assert (I2' : In (c1, t2') (enabled St holds s (a2 :: l2'))) by (unfold enabled; apply filter_In; split; [exact I2 | exact H1]).
+          rewrite En2 in I2'. destruct I2' as [Q|[]]. injection Q as -> ->. cbn [fst snd].
+          assert (I2e : In (c1, t2') (a2 :: l2')) by exact I2.
+          assert (Lr : leq (t1, O) (t2', O)).
+          { intros w. split; intros [r R].
+            - assert (Y : lang_from g2 q2 (Grd c1 :: w)) by (apply Lq; exists r; eapply run_vis; [eapply vs_grd; [exact K1 | exact I1] | exact R]).
+              destruct Y as [r' R']. apply run_cons_inv in R'; [|exact NS2]. destruct R' as (p'' & V'' & R'').
+              inversion V'' as [x0 q0 K|l c0 t' K I']; subst; rewrite K2 in K; [discriminate|]. injection K as <-.
+              rewrite (nodup_labs_fun _ _ _ _ N2 I' I2e) in R''. exists r'. exact R''.
+            - assert (Y : lang_from g1 q1 (Grd c1 :: w)) by (apply Lq; exists r; eapply run_vis; [eapply vs_grd; [exact K2 | exact I2e] | exact R]).
+              destruct Y as [r' R']. apply run_cons_inv in R'; [|exact NS1]. destruct R' as (p'' & V'' & R'').
+              inversion V'' as [x0 q0 K|l c0 t' K I']; subst; rewrite K1 in K; [discriminate|]. injection K as <-.
+              rewrite (nodup_labs_fun _ _ _ _ N1 I' I1) in R''. exists r'. exact R''. }
+          rewrite (IH _ _ s Lr). reflexivity.
+  Qed.
+End LangEq.
+
+(* [U] lang_eq_exec for Exec/Sem.v from LANGUAGE EQUALITY alone (no appeal to the checker): two functions whose
+   graphs have the same language, are det and well formed, execute alike under Sem from every state *)
+Theorem lang_eq_exec_sem_lang f1 f2 :
+  (forall w, lang (f_cfg f1) w <-> lang (f_cfg f2) w) -> det (f_cfg f1) = true -> det (f_cfg f2) = true ->
+  swf (f_cfg f1) -> swf (f_cfg f2) ->
+  forall st, (forall m1, exists m2, sem_obs m1 f1 st = sem_obs m2 f2 st) /\
+             (forall m2, exists m1, sem_obs m1 f1 st = sem_obs m2 f2 st).
+Proof.
+  intros LE D1 D2 W1 W2 st.
+  assert (NS1 : forall p, settle (f_cfg f1) (silent_fuel (f_cfg f1)) p <> None).
+  { intros p. destruct (settle_some f1 W1 p) as (q & _ & E). rewrite E. discriminate. }
+  assert (NS2 : forall p, settle (f_cfg f2) (silent_fuel (f_cfg f2)) p <> None).
+  { intros p. destruct (settle_some f2 W2 p) as (q & _ & E). rewrite E. discriminate. }
+  destruct (g_entry (f_cfg f1)) as [e1|] eqn:E1, (g_entry (f_cfg f2)) as [e2|] eqn:E2.
+  - assert (L : leq (f_cfg f1) (f_cfg f2) (e1, O) (e2, O)).
+    { intros w. split; intros X.
+      - assert (Y : lang (f_cfg f1) w) by (exists e1; split; [exact E1 | exact X]). apply LE in Y as (e & Ee & Y). rewrite E2 in Ee. injection Ee as <-. exact Y.
+      - assert (Y : lang (f_cfg f2) w) by (exists e2; split; [exact E2 | exact X]). apply LE in Y as (e & Ee & Y). rewrite E1 in Ee. injection Ee as <-. exact Y. }
+    destruct (sem_pexec_link f1 e1 W1 E1) as [A1 B1]. destruct (sem_pexec_link f2 e2 W2 E2) as [A2 B2].
+    assert (EQ : forall n, ins_only (fst (sem_pexec (f_cfg f1) (silent_fuel (f_cfg f1)) n (e1, O) st)) =
+                           ins_only (fst (sem_pexec (f_cfg f2) (silent_fuel (f_cfg f2)) n (e2, O) st))).
+    { intros n. unfold sem_pexec. rewrite (lang_eq_pexec sstate sem_do sem_holds _ _ _ _ D1 D2 NS1 NS2 n _ _ st L). reflexivity. }
+    split.
+    + intros m1. destruct (A1 m1 st) as [n En]. destruct (B2 n st) as [m2 Em]. exists m2. rewrite En, EQ, Em. reflexivity.
+    + intros m2. destruct (A2 m2 st) as [n En]. destruct (B1 n st) as [m1 Em]. exists m1. rewrite En, <- EQ, Em. reflexivity.
+  - exfalso. assert (Y : lang (f_cfg f1) []) by (exists e1; split; [exact E1 | exists (e1, O); constructor]).
+    apply LE in Y as (e & Ee & _). rewrite E2 in Ee. discriminate.
+  - exfalso. assert (Y : lang (f_cfg f2) []) by (exists e2; split; [exact E2 | exists (e2, O); constructor]).
+    apply LE in Y as (e & Ee & _). rewrite E1 in Ee. discriminate.
+  - unfold sem_obs, from_function. rewrite E1, E2. split; intros; exists O; reflexivity.
+Qed.
